@@ -220,6 +220,9 @@ def render(template_text, flags=(), canary=False):
                 elif t.startswith('//@loop '):
                     cur = ('loop', {'n': int(t[8:].split()[0])}, [])
                     sections.append(cur)
+                elif t.startswith('//@bodystart '):
+                    cur = ('bodystart', {'n': int(t[len('//@bodystart '):].split()[0])}, [])
+                    sections.append(cur)
                 elif t.startswith('//@after ') or t.startswith('//@before '):
                     kind = 'after' if t.startswith('//@after ') else 'before'
                     m = re.match(r'//@\w+\s+"((?:[^"\\]|\\.)*)"(?:\s+nth=(\d+))?(\s+opt)?', t)
@@ -499,6 +502,12 @@ def _render_fn(g, args, rws, subs, hsubs, sections):
             if a['n'] < 1 or a['n'] > len(loops):
                 raise AnchorLost('fn %s has %d loops, wanted loop %d' % (fname, len(loops), a['n']))
             inserts.append((loops[a['n'] - 1], '\n' + txt))
+        elif kind == 'bodystart':
+            if loops is None:
+                loops = _find_loops(body)
+            if a['n'] < 1 or a['n'] > len(loops):
+                raise AnchorLost('fn %s has %d loops, wanted loop %d' % (fname, len(loops), a['n']))
+            inserts.append((loops[a['n'] - 1] + 1, '\n' + txt))
         elif kind in ('after', 'before'):
             try:
                 s, e = _stmt_span(body, a['prefix'], a['nth'])
